@@ -67,6 +67,18 @@ theorem add_atomic (hc : CmpLaw cmp) (t : Table) (k : Key) (v : Nat) (mem : Mem)
     (t.add cmp k v mem).1 = .errAlloc ∧ (t.add cmp k v mem).2.1 = t ∧ (t.add cmp k v mem).2.2.live = mem.live :=
   (Table.add_spec hc t k v mem hk hg).2.1 h
 
+/-- a refusal is never swallowed: `add` reports `CC_ERR_ALLOC` exactly when one of its allocator
+requests was refused (and then exactly one was) -/
+theorem add_refused_iff (t : Table) (k : Key) (v : Nat) (mem : Mem) :
+    ((t.add cmp k v mem).1 = .ok ↔ (t.add cmp k v mem).2.2.nrefused = mem.nrefused) ∧
+    ((t.add cmp k v mem).1 ≠ .ok ↔ (t.add cmp k v mem).2.2.nrefused = mem.nrefused + 1) := by
+  have h := Table.add_refused (cmp := cmp) t k v mem
+  by_cases hok : (t.add cmp k v mem).1 = .ok
+  · have := h.1 hok
+    exact ⟨⟨fun _ => this, fun _ => hok⟩, ⟨fun h' => absurd hok h', fun h' => by omega⟩⟩
+  · have := h.2 hok
+    exact ⟨⟨fun h' => absurd h' hok, fun h' => by omega⟩, ⟨fun _ => this, fun _ => hok⟩⟩
+
 /-- without a refusal `add` succeeds -/
 theorem add_unrefused (t : Table) (k : Key) (v : Nat) (mem : Mem) (h : mem.sched = []) :
     (t.add cmp k v mem).1 = .ok := Table.add_unrefused t k v mem h
@@ -288,6 +300,188 @@ theorem destroy_balanced (t : Table) (mem : Mem) (hg : t.Good cmp) (hl : t.Owns 
   unfold Table.Owns at hl
   exact ⟨by rw [h.1]; omega, h.2⟩
 
+/-! ## iterator programs (C07, TST part) -/
+open CC.Spec.StrMap (IOp IOut Cursor)
+
+/-- closes goals that `simp only` may or may not have reduced to `True` already -/
+local macro "triv" : tactic => `(tactic| first | rfl | trivial | simp)
+
+/-- the key that `iter_remove` would remove now -/
+def lastKey (t : Table) (it : Iter) : Option Key :=
+  it.lastYield.bind fun p => (t.root.sub p).data?.map (·.1)
+
+/-- simulation relation between the C iterator (pointer automaton state `it`) and the ideal cursor:
+`todo` is what both are still going to yield, in the implementation's order -/
+def IterRel (t : Table) (it : Iter) (cu : Cursor) (todo : List (Path × Entry)) : Prop :=
+  IterOk t.root it todo ∧ it.curMarked t.root ∧ cu.todo = todo.map (·.2.1) ∧ cu.last = lastKey t it
+
+theorem entry_get (hc : CmpLaw cmp) (t : Table) (s : StrMap) (hg : t.Good cmp) (hr : Rel t s)
+    (p : Path) (e : Entry) (hd : (t.root.sub p).data? = some e) : s.get e.1 = some e.2 := by
+  rw [hr.2, ← SpecLemmas.mem_iff_get _ (abs_wf hc t hg.1.2.2 hg.2)]
+  have := mem_entriesP_of_data t.root p e hd
+  have h2 : e ∈ t.root.entriesP.map (·.2) := List.mem_map.mpr ⟨(p, e), this, rfl⟩
+  rw [entriesP_map_snd] at h2
+  exact h2
+
+theorem todo_keys_nodup (hc : CmpLaw cmp) (t : Table) (hg : t.Good cmp) (pre todo : List (Path × Entry))
+    (h : t.root.entriesP = pre ++ todo) : (todo.map (·.2.1)).Nodup := by
+  have hw := abs_wf hc t hg.1.2.2 hg.2
+  unfold StrMap.WF StrMap.keys Table.abs at hw
+  rw [← entriesP_map_snd, h] at hw
+  simp only [List.map_append, List.map_map] at hw
+  exact (List.nodup_append.mp hw).2.1
+
+/-- the iterator of a freshly initialised session is related to the fresh cursor -/
+theorem iterInit_rel (t : Table) : IterRel t (iterInit t) (StrMap.cursorNew t.abs) t.root.entriesP := by
+  refine ⟨Or.inl ⟨rfl, iterInit_at t⟩, ?_, ?_, rfl⟩
+  · intro p hp; simp [iterInit] at hp
+  · simp [StrMap.cursorNew, StrMap.keys, Table.abs, ← entriesP_map_snd]
+
+/-- **One iterator call refines the ideal cursor** (non-empty keys; `remove` not directly after a
+`remove`): same status and value, the yielded key is one the cursor had not yielded yet, `remove`
+deletes exactly the key yielded last, the iteration continues over exactly the keys not yet yielded,
+and nothing faults or leaks. -/
+theorem iter_step_refines_partial (hc : CmpLaw cmp) (t : Table) (s : StrMap) (it : Iter) (cu : Cursor)
+    (todo : List (Path × Entry)) (op : IOp) (mem : Mem)
+    (hg : t.Good cmp) (hl : t.Owns mem) (hr : Rel t s) (hi : IterRel t it cu todo)
+    (hlegal : ∀ w, op = .remove w → it.adv = false) :
+    (t.iterOp it op mem).1 = (s.cursorStep cu (t.iterOp it op mem).1.key op).1 ∧
+    (s.cursorStep cu (t.iterOp it op mem).1.key op).2.1 = true ∧
+    Rel (t.iterOp it op mem).2.1 (s.cursorStep cu (t.iterOp it op mem).1.key op).2.2.1 ∧
+    (t.iterOp it op mem).2.1.Good cmp ∧ (t.iterOp it op mem).2.1.Owns (t.iterOp it op mem).2.2.2 ∧
+    (t.iterOp it op mem).2.2.2.fault = mem.fault ∧
+    (op = .next → (t.iterOp it op mem).2.2.1.adv = false) ∧
+    ∃ todo', IterRel (t.iterOp it op mem).2.1 (t.iterOp it op mem).2.2.1
+      (s.cursorStep cu (t.iterOp it op mem).1.key op).2.2.2 todo' ∧
+      (op = .next → todo' = todo.tail) ∧ (∀ w, op = .remove w → todo' = todo) := by
+  obtain ⟨hok, hcm, hct, hcl⟩ := hi
+  cases op with
+  | next =>
+    obtain ⟨n1, n2, n3⟩ := iterNext_ok t it mem todo hok
+    obtain ⟨pre, hpre⟩ := hok.suffix hcm
+    have hnd := todo_keys_nodup hc t hg pre todo hpre
+    cases todo with
+    | nil =>
+      obtain ⟨n3, n4, n5, n6⟩ := n3
+      simp only [List.map_nil] at hct
+      simp only [Table.iterOp, StrMap.cursorStep, StrMap.cursorNext, hct, n3, n4, Option.map_none]
+      refine ⟨by triv, by triv, hr, hg, by rw [n1]; exact hl, by rw [n1], fun _ => n2, [], ⟨n5, ?_, by triv, ?_⟩, fun _ => rfl,
+        (fun w h => by cases h)⟩
+      · intro p hp; rw [n6] at hp; cases hp
+      · simp [lastKey, Iter.lastYield, n2, n6]
+    | cons x tl =>
+      obtain ⟨n3, n4, n5, n6⟩ := n3
+      have hd := hok.head_data mem
+      have hget := entry_get hc t s hg hr x.1 x.2 hd
+      simp only [List.map_cons] at hct hnd
+      have hfil : (x.2.1 :: tl.map (·.2.1)).filter (· != x.2.1) = tl.map (·.2.1) := by
+        simp only [List.filter_cons, bne_self_eq_false, Bool.false_eq_true, if_false]
+        apply List.filter_eq_self.mpr
+        intro a ha
+        have := (List.nodup_cons.mp hnd).1
+        simp only [bne_iff_ne, ne_eq]
+        intro h; subst h; exact this ha
+      simp only [Table.iterOp, StrMap.cursorStep, StrMap.cursorNext, hct, n3, n4, Option.map_some,
+        List.contains_cons, beq_self_eq_true, Bool.true_or, if_true, hget, hfil]
+      refine ⟨by triv, by triv, hr, hg, by rw [n1]; exact hl, by rw [n1], fun _ => n2, tl, ⟨n5, ?_, by triv, ?_⟩, fun _ => rfl,
+        (fun w h => by cases h)⟩
+      · intro p hp; rw [n6] at hp; simp at hp; subst hp; exact ⟨x.2, hd⟩
+      · simp [lastKey, Iter.lastYield, n2, n6, hd]
+  | remove w =>
+    have hadv := hlegal w rfl
+    have hat : IterAt t.root it todo := by
+      rcases hok with ⟨_, h⟩ | ⟨h, _⟩
+      · exact h
+      · rw [hadv] at h; cases h
+    cases hcur : it.cur with
+    | none =>
+      have hl0 : cu.last = none := by rw [hcl]; simp [lastKey, Iter.lastYield, hadv, hcur]
+      simp only [Table.iterOp, iterRemove_inert t it w mem hcur, StrMap.cursorStep, StrMap.cursorRemove, hl0]
+      refine ⟨by triv, by triv, hr, hg, hl, by triv, (fun h => by cases h), todo, ⟨hok, hcm, hct, hcl⟩, (fun h => by cases h), fun _ _ => rfl⟩
+    | some p =>
+      obtain ⟨e, hd⟩ := hcm p hcur
+      have hl0 : cu.last = some e.1 := by rw [hcl]; simp [lastKey, Iter.lastYield, hadv, hcur, hd]
+      have hget := entry_get hc t s hg hr p e hd
+      obtain ⟨r1, r2, r3, r4, r5, r6, r7, r8, r9⟩ := Table.iterRemove_spec hc t it w mem todo p e hg hl hat hadv hcur hd
+      simp only [Table.iterOp, StrMap.cursorStep, StrMap.cursorRemove, hl0, hget, r1, r2]
+      refine ⟨by triv, by triv, ⟨SpecLemmas.wf_remove s e.1 hr.1, ?_⟩, r3, r5, r7, (fun h => by cases h), todo, ⟨r8, ?_, hct, ?_⟩,
+        (fun h => by cases h), fun _ _ => rfl⟩
+      · intro k; rw [r4 k, SpecLemmas.get_remove, SpecLemmas.get_remove, hr.2 k]
+      · -- the iterator now stands at the head of `todo`, which is a marked node of the pruned tree
+        intro q hq
+        rcases r8 with ⟨h, _⟩ | ⟨_, h⟩
+        · rw [r9] at h; cases h
+        · cases todo with
+          | nil => rw [h.2.1] at hq; cases hq
+          | cons x tl => rw [h.2.2.1] at hq; simp at hq; subst hq; exact ⟨x.2, h.2.1⟩
+      · simp [lastKey, Iter.lastYield, r9]
+
+def isRemove : IOp → Bool
+  | .next => false
+  | .remove _ => true
+
+/-- the keys the implementation yielded, paired with the calls: the resolution of the cursor's
+nondeterminism, validated by the cursor (`legal` flag) -/
+def iterChoices (t : Table) (it : Iter) (ops : List IOp) (mem : Mem) : List (Option Key × IOp) :=
+  ((t.iterRun it ops mem).1.map (·.key)).zip ops
+
+/-- **C07 (TST part), all iterator programs.** From any related state, every program of `iter_next` /
+`iter_remove` calls that respects the contract (at most one `iter_remove` per yielded element) returns
+exactly the statuses and values of the ideal cursor; every yielded key is one the cursor had not
+yielded before (so each present key is yielded at most once, and `CC_ITER_END` comes exactly when none
+is left); the final table is the ideal map; invariant and ledger are kept; nothing faults. -/
+theorem iter_program_refines_partial (hc : CmpLaw cmp) (ops : List IOp) (t : Table) (s : StrMap) (it : Iter)
+    (cu : Cursor) (todo : List (Path × Entry)) (mem : Mem) (flag : Bool)
+    (hg : t.Good cmp) (hl : t.Owns mem) (hr : Rel t s) (hi : IterRel t it cu todo)
+    (hflag : it.adv = true → flag = true) (hlegal : StrMap.legalProg flag ops = true) :
+    (t.iterRun it ops mem).1 = (s.cursorRun cu (iterChoices t it ops mem)).1.map (·.1) ∧
+    (∀ x ∈ (s.cursorRun cu (iterChoices t it ops mem)).1, x.2 = true) ∧
+    Rel (t.iterRun it ops mem).2.1 (s.cursorRun cu (iterChoices t it ops mem)).2.1 ∧
+    (t.iterRun it ops mem).2.1.Good cmp ∧ (t.iterRun it ops mem).2.1.Owns (t.iterRun it ops mem).2.2.2 ∧
+    (t.iterRun it ops mem).2.2.2.fault = mem.fault := by
+  induction ops generalizing t s it cu todo mem flag with
+  | nil => exact ⟨rfl, by simp [iterChoices, StrMap.cursorRun], hr, hg, hl, rfl⟩
+  | cons op ops ih =>
+    have hleg1 : ∀ w, op = .remove w → it.adv = false := by
+      intro w hw; subst hw
+      simp only [StrMap.legalProg, Bool.and_eq_true, Bool.not_eq_true'] at hlegal
+      cases ha : it.adv with
+      | false => rfl
+      | true => have := hflag ha; rw [this] at hlegal; cases hlegal.1
+    obtain ⟨h1, h2, h3, h4, h5, h6, h7, todo', h8, _, _⟩ :=
+      iter_step_refines_partial hc t s it cu todo op mem hg hl hr hi hleg1
+    have hflag' : (t.iterOp it op mem).2.2.1.adv = true → (isRemove op) = true := by
+      intro ha
+      cases op with
+      | next => rw [h7 rfl] at ha; cases ha
+      | remove w => rfl
+    have hlegal' : StrMap.legalProg (isRemove op) ops = true := by
+      cases op with
+      | next => simpa [StrMap.legalProg, isRemove] using hlegal
+      | remove w => simp only [StrMap.legalProg, Bool.and_eq_true] at hlegal; exact hlegal.2
+    have ih' := ih _ _ _ _ todo' _ _ h4 h5 h3 h8 hflag' hlegal'
+    simp only [iterChoices, Table.iterRun, List.map_cons, List.zip_cons_cons, StrMap.cursorRun] at ih' ⊢
+    refine ⟨?_, ?_, ih'.2.2.1, ih'.2.2.2.1, ih'.2.2.2.2.1, by rw [ih'.2.2.2.2.2, h6]⟩
+    · exact List.cons_eq_cons.mpr ⟨h1, ih'.1⟩
+    · intro x hx
+      rcases List.mem_cons.mp hx with hx | hx
+      · rw [hx]; exact h2
+      · exact ih'.2.1 x hx
+
+/-- **C07 from `iter_init`**: every contract-respecting iterator program on a table in a good state. -/
+theorem iter_init_program_refines_partial (hc : CmpLaw cmp) (ops : List IOp) (t : Table) (mem : Mem)
+    (hg : t.Good cmp) (hl : t.Owns mem) (hlegal : StrMap.legalProg false ops = true) :
+    (t.iterRun (iterInit t) ops mem).1 =
+      (t.abs.cursorRun (StrMap.cursorNew t.abs) (iterChoices t (iterInit t) ops mem)).1.map (·.1) ∧
+    (∀ x ∈ (t.abs.cursorRun (StrMap.cursorNew t.abs) (iterChoices t (iterInit t) ops mem)).1, x.2 = true) ∧
+    Rel (t.iterRun (iterInit t) ops mem).2.1
+      (t.abs.cursorRun (StrMap.cursorNew t.abs) (iterChoices t (iterInit t) ops mem)).2.1 ∧
+    (t.iterRun (iterInit t) ops mem).2.1.Good cmp ∧
+    (t.iterRun (iterInit t) ops mem).2.2.2.fault = mem.fault := by
+  have := iter_program_refines_partial hc ops t t.abs (iterInit t) (StrMap.cursorNew t.abs) t.root.entriesP mem false
+    hg hl (rel_abs hc t hg) (iterInit_rel t) (by intro h; cases h) hlegal
+  exact ⟨this.1, this.2.1, this.2.2.1, this.2.2.2.1, this.2.2.2.2.2⟩
+
 /-! ## the comparators of the harness satisfy the contract -/
 
 theorem default_char_cmp_law : CmpLaw cmpSigned := cmpSigned_law
@@ -314,6 +508,15 @@ theorem empty_key_aliases_root :
     (x5Table.add cmpSigned [] 2 {}).2.1.get cmpSigned [97] = (.ok, some 2) ∧
     (x5Table.remove cmpSigned [] { live := 3 }).2.2.1 = ⟨0, .nil⟩ := by
   decide
+
+/-- X5 is a *functional* defect only: with any key, the empty one included, `add` and `remove` keep the
+structural invariant (`size` = number of marked nodes, no unmarked leaf, ordering), the ledger, and
+never fault. -/
+theorem structural_inv_any_key (t : Table) (k : Key) (v : Nat) (mem : Mem) (hi : t.Inv cmp) (hl : t.Owns mem) :
+    (t.add cmp k v mem).2.1.Inv cmp ∧ (t.add cmp k v mem).2.2.fault = mem.fault ∧
+    (t.remove cmp k mem).2.2.1.Inv cmp ∧ (t.remove cmp k mem).2.2.2.fault = mem.fault :=
+  ⟨(Table.add_inv_any_key t k v mem hi).1, (Table.add_inv_any_key t k v mem hi).2.1,
+   (Table.remove_inv_any_key t k mem hi hl).1, (Table.remove_inv_any_key t k mem hi hl).2.1⟩
 
 /-! ## Non-vacuity: nested prefixes and a high byte satisfy the invariant -/
 def nestedTable : Table := ⟨3, .node 97 (some ([97], 1))
